@@ -625,4 +625,362 @@ theorem specCells_insert_raw (ctx : Ctx) (id : Nat) (p : Bytes) (l2 : List Item)
     simp only [List.cons_append, specCells]
     rw [specCells_insert_raw ctx id p l2 l1 row]
 
+/-! ### shared strings -/
+
+theorem fillBuf_drop1 (buf : Bytes) (b : UInt8) (p : Bytes) :
+    ∃ tail, (fillBuf buf (b :: p)).drop 1 = p ++ tail := by
+  unfold fillBuf
+  split
+  · exact ⟨[], by simp⟩
+  · exact ⟨buf.drop (b :: p).length, by simp⟩
+
+theorem sstItems_enc (post : Bytes) : ∀ (strs : List (List Nat × Bool × Nat)) (fuel : Nat) (buf : Bytes) (acc : List (List Nat)),
+    (∀ s ∈ strs, s.1.length < 100000000 ∧ ∀ u ∈ s.1, u < 65536) → 0 < fuel →
+    sstItems strs.length fuel buf (encodeItems (strs.map fun s => sstItem s.1 s.2.1 s.2.2) ++ post) acc
+      = .ok (acc.reverse ++ strs.map (·.1))
+  | [], _, _, acc, _, _ => by simp [sstItems]
+  | s :: strs, fuel, buf, acc, h, hf => by
+    obtain ⟨hl, hu⟩ := h s (List.mem_cons_self ..)
+    have hpl : (0 :: wideBytes s.1 : Bytes).length < 268435456 := by
+      simp only [List.length_cons, wideBytes, List.length_append, le32_length, unitsBytes_length]; omega
+    obtain ⟨b', hb'⟩ := nextSkipBlocks_segs 0x0013 (by omega) [(0x0023, some 0x0024)] (0 :: wideBytes s.1) hpl s.2.1 s.2.2
+      (encodeItems (strs.map fun s => sstItem s.1 s.2.1 s.2.2) ++ post) [] fuel buf (fun _ h => nomatch h) (by simpa [segsSize] using hf)
+    simp only [encodeSegs, List.nil_append] at hb'
+    simp only [List.length_cons, List.map_cons, encodeItems, List.append_assoc, sstItems]
+    rw [show (sstItem s.1 s.2.1 s.2.2).bytes = frame 0x0013 (0 :: wideBytes s.1) s.2.1 s.2.2 from rfl, hb']
+    simp only
+    have hge := fillBuf_length_ge b' (0 :: wideBytes s.1)
+    rw [if_neg (by simp only [List.length_cons] at hge; omega)]
+    obtain ⟨tail, ht⟩ := fillBuf_drop1 b' 0 (wideBytes s.1)
+    rw [ht, wideStr_wideBytes s.1 (by omega) hu]
+    simp only
+    rw [sstItems_enc post strs fuel _ (s.1 :: acc) (fun x hx => h x (List.mem_cons_of_mem _ hx)) hf]
+    simp
+
+
+/-- `read_shared_strings` returns exactly the strings of the part, in order -/
+theorem readSharedStrings_enc (total : Nat) (hw : Bool) (hl : Nat) (strs : List (List Nat × Bool × Nat)) (post : Bytes)
+    (hn : strs.length < 4294967296)
+    (h : ∀ s ∈ strs, s.1.length < 100000000 ∧ ∀ u ∈ s.1, u < 65536) :
+    readSharedStrings (sstBytes total hw hl strs post) = .ok (strs.map (·.1)) := by
+  unfold readSharedStrings sstBytes
+  have hpl : (le32 total ++ le32 strs.length).length < 268435456 := by simp [le32_length]
+  obtain ⟨b', hb'⟩ := nextSkipBlocks_segs 0x009F (by omega) [] (le32 total ++ le32 strs.length) hpl hw hl
+    (encodeItems (strs.map fun s => sstItem s.1 s.2.1 s.2.2) ++ post) []
+    ((frame 0x009F (le32 total ++ le32 strs.length) hw hl ++
+      (encodeItems (strs.map fun s => sstItem s.1 s.2.1 s.2.2) ++ post)).length + 1) [] (fun _ h => nomatch h)
+    (by simp [segsSize])
+  simp only [encodeSegs, List.nil_append] at hb'
+  rw [hb']
+  simp only
+  have hge := fillBuf_length_ge b' (le32 total ++ le32 strs.length)
+  rw [if_neg (by simp only [List.length_append, le32_length] at hge; omega)]
+  have hcount : u32le ((fillBuf b' (le32 total ++ le32 strs.length)).drop 4) = strs.length := by
+    unfold fillBuf
+    split
+    · rw [List.drop_left' (le32_length _)]
+      have := u32le_le32 strs.length hn []
+      simpa using this
+    · rw [List.append_assoc, List.drop_left' (le32_length _), u32le_le32 _ hn]
+  rw [hcount, sstItems_enc post strs _ _ [] h (by omega)]
+  simp
+
+/-! ### termination: every loop consumes bytes -/
+
+theorem readType_shrinks (bs : Bytes) (t : Nat) (r : Bytes) (h : readType bs = .ok (t, r)) : r.length + 1 ≤ bs.length := by
+  unfold readType at h
+  split at h
+  · cases h
+  · split at h
+    · injection h with h; injection h with _ h; subst h; simp
+    · split at h
+      · cases h
+      · injection h with h; injection h with _ h; subst h; simp only [List.length_cons]; omega
+
+theorem readLenGo_shrinks : ∀ (f i acc : Nat) (prev : UInt8) (bs : Bytes) (n : Nat) (r : Bytes),
+    readLenGo f i acc prev bs = .ok (n, r) → r.length ≤ bs.length
+  | 0, _, _, _, bs, n, r, h => by
+    simp only [readLenGo] at h; injection h with h; injection h with _ h; subst h; exact Nat.le_refl _
+  | f+1, i, acc, prev, bs, n, r, h => by
+    simp only [readLenGo] at h
+    split at h
+    · injection h with h; injection h with _ h; subst h; exact Nat.le_refl _
+    · split at h
+      · cases h
+      · have := readLenGo_shrinks f _ _ _ _ n r h
+        simp only [List.length_cons]; omega
+
+theorem readLen_shrinks (bs : Bytes) (n : Nat) (r : Bytes) (h : readLen bs = .ok (n, r)) : r.length + 1 ≤ bs.length := by
+  unfold readLen at h
+  split at h
+  · cases h
+  · have := readLenGo_shrinks _ _ _ _ _ n r h
+    simp only [List.length_cons]; omega
+
+theorem readRecord_shrinks (bs : Bytes) (t : Nat) (p rest : Bytes) (h : readRecord bs = .ok (t, p, rest)) :
+    rest.length + 2 ≤ bs.length := by
+  unfold readRecord at h
+  split at h
+  · rename_i t' r ht
+    have h1 := readType_shrinks bs t' r ht
+    split at h
+    · rename_i len r' hl
+      have h2 := readLen_shrinks r len r' hl
+      split at h
+      · cases h
+      · injection h with h; injection h with _ h; injection h with _ h; subst h
+        simp only [List.length_drop]; omega
+    all_goals cases h
+  all_goals cases h
+
+theorem readType_ne_fuel (bs : Bytes) : readType bs ≠ .outOfFuel := by
+  unfold readType; split
+  · simp
+  · split
+    · simp
+    · split <;> simp
+
+theorem readLenGo_ne_fuel : ∀ (f i acc : Nat) (prev : UInt8) (bs : Bytes), readLenGo f i acc prev bs ≠ .outOfFuel
+  | 0, _, _, _, _ => by simp [readLenGo]
+  | f+1, i, acc, prev, bs => by
+    simp only [readLenGo]
+    split
+    · simp
+    · split
+      · simp
+      · exact readLenGo_ne_fuel f _ _ _ _
+
+theorem readLen_ne_fuel (bs : Bytes) : readLen bs ≠ .outOfFuel := by
+  unfold readLen; split
+  · simp
+  · exact readLenGo_ne_fuel _ _ _ _ _
+
+theorem readRecord_ne_fuel (bs : Bytes) : readRecord bs ≠ .outOfFuel := by
+  unfold readRecord
+  have h1 := readType_ne_fuel bs
+  cases ht : readType bs with
+  | ok v =>
+    obtain ⟨t, r⟩ := v
+    simp only
+    have h2 := readLen_ne_fuel r
+    cases hl : readLen r with
+    | ok w => obtain ⟨len, r'⟩ := w; simp only; split <;> simp
+    | err e => simp
+    | panic s => simp
+    | outOfFuel => exact absurd hl h2
+  | err e => simp
+  | panic s => simp
+  | outOfFuel => exact absurd ht h1
+
+theorem wideStr_ne_fuel (b : Bytes) : wideStr b ≠ .outOfFuel := by
+  unfold wideStr; split
+  · simp
+  · split <;> simp
+
+/-- a failing record is an `Err` or a panic -/
+theorem interpret_fail (ctx : Ctx) (t : Nat) (p : Bytes) (r : Res Unit) (h : interpret ctx t p = .fail r) :
+    (∃ e, r = .err e) ∨ (∃ s, r = .panic s) := by
+  unfold interpret at h
+  have hw := wideStr_ne_fuel (p.drop 8)
+  repeat' split at h
+  all_goals first
+    | (rename_i hh; exact absurd hh hw)
+    | (injection h with h; subst h; first | exact Or.inl ⟨_, rfl⟩ | exact Or.inr ⟨_, rfl⟩)
+    | cases h
+
+/-- the cell loop never runs out of fuel when given more fuel than bytes -/
+theorem readCells_fuel (ctx : Ctx) : ∀ (f : Nat) (bs : Bytes) (row : Nat), bs.length < f →
+    readCells ctx f bs row ≠ .outOfFuel
+  | 0, _, _, h => by omega
+  | f+1, bs, row, h => by
+    rw [readCells]
+    cases hr : readRecord bs with
+    | ok v =>
+      obtain ⟨t, p, rest⟩ := v
+      have hs := readRecord_shrinks bs t p rest hr
+      have ih1 := readCells_fuel ctx f rest row (by omega)
+      simp only
+      cases hi : interpret ctx t p with
+      | value col v =>
+        simp only
+        cases hc : readCells ctx f rest row with
+        | ok l => simp
+        | err e => simp
+        | panic s => simp
+        | outOfFuel => exact absurd hc ih1
+      | row r =>
+        simp only
+        split
+        · simp
+        · exact readCells_fuel ctx f rest r (by omega)
+      | stop => simp
+      | skip => exact ih1
+      | fail r =>
+        rcases interpret_fail ctx t p r hi with ⟨e, rfl⟩ | ⟨s, rfl⟩ <;> simp
+    | err e => simp
+    | panic s => simp
+    | outOfFuel => exact absurd hr (readRecord_ne_fuel bs)
+
+
+theorem fillBuffer_ne_fuel (buf bs : Bytes) : fillBuffer buf bs ≠ .outOfFuel := by
+  unfold fillBuffer
+  have h2 := readLen_ne_fuel bs
+  cases hl : readLen bs with
+  | ok w => obtain ⟨len, r'⟩ := w; simp only; split <;> simp
+  | err e => simp
+  | panic s => simp
+  | outOfFuel => exact absurd hl h2
+
+theorem fillBuffer_shrinks (buf bs : Bytes) (len : Nat) (b' r' : Bytes) (h : fillBuffer buf bs = .ok (len, b', r')) :
+    r'.length + 1 ≤ bs.length := by
+  unfold fillBuffer at h
+  split at h
+  · rename_i n r hl
+    have := readLen_shrinks bs n r hl
+    split at h
+    · cases h
+    · injection h with h; injection h with _ h; injection h with _ h; subst h
+      simp only [List.length_drop]; omega
+  all_goals cases h
+
+theorem skipToEnd_total (e : Nat) : ∀ (f : Nat) (buf bs : Bytes), bs.length < f →
+    skipToEnd e f buf bs ≠ .outOfFuel ∧ ∀ b r, skipToEnd e f buf bs = .ok (b, r) → r.length + 1 ≤ bs.length
+  | 0, _, _, h => by omega
+  | f+1, buf, bs, h => by
+    rw [skipToEnd]
+    have h1 := readType_ne_fuel bs
+    cases ht : readType bs with
+    | ok v =>
+      obtain ⟨t, r⟩ := v
+      have hs := readType_shrinks bs t r ht
+      simp only
+      split
+      · exact ⟨by simp, fun b r' hh => by injection hh with hh; injection hh with _ hh; subst hh; exact hs⟩
+      · have h2 := fillBuffer_ne_fuel buf r
+        cases hf : fillBuffer buf r with
+        | ok w =>
+          obtain ⟨len, b', r'⟩ := w
+          have hs2 := fillBuffer_shrinks buf r len b' r' hf
+          simp only
+          obtain ⟨ih1, ih2⟩ := skipToEnd_total e f b' r' (by omega)
+          exact ⟨ih1, fun b r'' hh => by have := ih2 b r'' hh; omega⟩
+        | err e => exact ⟨by simp, fun _ _ hh => by cases hh⟩
+        | panic s => exact ⟨by simp, fun _ _ hh => by cases hh⟩
+        | outOfFuel => exact absurd hf h2
+    | err e => exact ⟨by simp, fun _ _ hh => by cases hh⟩
+    | panic s => exact ⟨by simp, fun _ _ hh => by cases hh⟩
+    | outOfFuel => exact absurd ht h1
+
+theorem nextSkipBlocks_total (target : Nat) (bounds : List (Nat × Option Nat)) : ∀ (f : Nat) (buf bs : Bytes),
+    bs.length < f → nextSkipBlocks target bounds f buf bs ≠ .outOfFuel ∧
+      ∀ n b r, nextSkipBlocks target bounds f buf bs = .ok (n, b, r) → r.length + 2 ≤ bs.length
+  | 0, _, _, h => by omega
+  | f+1, buf, bs, h => by
+    rw [nextSkipBlocks]
+    cases ht : readType bs with
+    | ok v =>
+      obtain ⟨t, r⟩ := v
+      have hs := readType_shrinks bs t r ht
+      simp only
+      cases hf : fillBuffer buf r with
+      | ok w =>
+        obtain ⟨len, b1, r1⟩ := w
+        have hs1 := fillBuffer_shrinks buf r len b1 r1 hf
+        simp only
+        split
+        · exact ⟨by simp, fun n b r' hh => by
+            injection hh with hh; injection hh with _ hh; injection hh with _ hh; subst hh; omega⟩
+        · split
+          · rename_i e he
+            obtain ⟨k1, k2⟩ := skipToEnd_total e f b1 r1 (by omega)
+            cases hk : skipToEnd e f b1 r1 with
+            | ok u =>
+              obtain ⟨b2, r2⟩ := u
+              have hs2 := k2 b2 r2 hk
+              simp only
+              cases hf2 : fillBuffer b2 r2 with
+              | ok w2 =>
+                obtain ⟨len3, b3, r3⟩ := w2
+                have hs3 := fillBuffer_shrinks b2 r2 len3 b3 r3 hf2
+                simp only
+                obtain ⟨ih1, ih2⟩ := nextSkipBlocks_total target bounds f b3 r3 (by omega)
+                exact ⟨ih1, fun n b r' hh => by have := ih2 n b r' hh; omega⟩
+              | err e => exact ⟨by simp, fun _ _ _ hh => by cases hh⟩
+              | panic s => exact ⟨by simp, fun _ _ _ hh => by cases hh⟩
+              | outOfFuel => exact absurd hf2 (fillBuffer_ne_fuel _ _)
+            | err e => exact ⟨by simp, fun _ _ _ hh => by cases hh⟩
+            | panic s => exact ⟨by simp, fun _ _ _ hh => by cases hh⟩
+            | outOfFuel => exact absurd hk k1
+          · obtain ⟨ih1, ih2⟩ := nextSkipBlocks_total target bounds f b1 r1 (by omega)
+            exact ⟨ih1, fun n b r' hh => by have := ih2 n b r' hh; omega⟩
+      | err e => exact ⟨by simp, fun _ _ _ hh => by cases hh⟩
+      | panic s => exact ⟨by simp, fun _ _ _ hh => by cases hh⟩
+      | outOfFuel => exact absurd hf (fillBuffer_ne_fuel _ _)
+    | err e => exact ⟨by simp, fun _ _ _ hh => by cases hh⟩
+    | panic s => exact ⟨by simp, fun _ _ _ hh => by cases hh⟩
+    | outOfFuel => exact absurd ht (readType_ne_fuel _)
+
+
+theorem newReader_total (bs : Bytes) : newReader bs ≠ .outOfFuel ∧
+    ∀ d r, newReader bs = .ok (d, r) → r.length ≤ bs.length := by
+  unfold newReader
+  obtain ⟨a1, a2⟩ := nextSkipBlocks_total 0x0094 [(0x0081, none), (0x0093, none)] (bs.length + 1) [] bs (by omega)
+  cases h1 : nextSkipBlocks 0x0094 [(0x0081, none), (0x0093, none)] (bs.length + 1) [] bs with
+  | ok v =>
+    obtain ⟨n, buf, rest⟩ := v
+    have hs := a2 n buf rest h1
+    simp only
+    split
+    · exact ⟨by simp, fun _ _ hh => by cases hh⟩
+    · obtain ⟨b1, b2⟩ := nextSkipBlocks_total 0x0091
+        [(0x0085, some 0x0086), (0x0025, some 0x0026), (0x01E5, none), (0x0186, some 0x0187)] (bs.length + 1) buf rest (by omega)
+      cases h2 : nextSkipBlocks 0x0091 [(0x0085, some 0x0086), (0x0025, some 0x0026), (0x01E5, none), (0x0186, some 0x0187)]
+          (bs.length + 1) buf rest with
+      | ok w =>
+        obtain ⟨n2, buf2, rest2⟩ := w
+        have hs2 := b2 n2 buf2 rest2 h2
+        exact ⟨by simp, fun d r hh => by injection hh with hh; injection hh with _ hh; subst hh; omega⟩
+      | err e => exact ⟨by simp, fun _ _ hh => by cases hh⟩
+      | panic s => exact ⟨by simp, fun _ _ hh => by cases hh⟩
+      | outOfFuel => exact absurd h2 b1
+  | err e => exact ⟨by simp, fun _ _ hh => by cases hh⟩
+  | panic s => exact ⟨by simp, fun _ _ hh => by cases hh⟩
+  | outOfFuel => exact absurd h1 a1
+
+theorem sparse_fold_ne_fuel {α : Type} [Inhabited α] (rs cs cols len : Nat) :
+    ∀ (cells : List (Nat × Nat × α)) (acc : Res (List α)), acc ≠ .outOfFuel →
+      cells.foldl (Range.sparseStep rs cs cols len) acc ≠ .outOfFuel
+  | [], acc, h => h
+  | c :: rest, acc, h => by
+    rw [List.foldl_cons]
+    apply sparse_fold_ne_fuel rs cs cols len rest
+    unfold Range.sparseStep
+    split
+    · split
+      · simp
+      · simp only; split <;> simp
+    · rename_i other hno
+      exact h
+
+theorem fromSparse_ne_fuel {α : Type} [Inhabited α] (cells : List (Nat × Nat × α)) :
+    Range.fromSparse cells ≠ .outOfFuel := by
+  unfold Range.fromSparse
+  split
+  · simp
+  · simp only
+    split
+    · simp
+    · split
+      · simp
+      · split
+        · simp
+        · rename_i c0 rest _ _ _
+          have := sparse_fold_ne_fuel (α := α)
+          split
+          · simp
+          · simp
+          · simp
+          · rename_i hf
+            exact absurd hf (sparse_fold_ne_fuel _ _ _ _ _ _ (by simp))
+
 end Xlsb
